@@ -9,7 +9,7 @@ Accessors(kind) ==
   CASE kind = "location" ->
         {"blocks", "num_blocks", "is_overlapping", "is_contiguous", "start_end", "len", "extract_sequence", "gap_list",
          "gaps_location", "full_span", "scan_blocks", "hash", "str", "rel_to_parent_0", "parent_to_rel_first",
-         "first_ancestor", "has_ancestor", "eq_twin"}
+         "first_ancestor", "has_ancestor", "first_ancestor_asm", "has_ancestor_asm", "parent_depth", "eq_twin"}
     [] kind = "sequence" ->
         {"str", "len", "hash", "location_on_parent", "parent_strand", "slice_1_3", "reverse_complement", "summary",
          "has_ancestor", "eq_twin"}
